@@ -15,6 +15,10 @@ TRUSTED = [
     "dtype-kind table `aggKind`/`Kind.join`/`Kind.na`): not proven, tied on every run to what pandas does on the stand-ins (`_meta`) and on "
     "real partitions by the families decl_nodes / decl_random / partitions / reduction_kinds",
     "meta_nonempty: which stand-in indexes align (concat axis=1 is modelled only for inputs with one index class)",
+    "corners where pandas itself is order- or value-dependent are outside the tie (the translator makes such nodes opaque sources): bool "
+    "columns stacked with numeric ones by a row-wise concat (int+bool -> int, float+bool -> float, bool+float -> object), merge keys of "
+    "different kinds (pandas coerces them), any()/all() over object-kind columns (str columns refuse, genuine object columns do not), "
+    "non-string or duplicate labels; a scalar reduced from an object column is compared by container only",
     "the column rules of Dx.Cols used by `pushdown` are tied to the real `_simplify_up` methods by C04's families; here only the "
     "resulting `_meta` of every node of the really optimized expression is compared (family optimized_nodes)",
 ]
@@ -29,6 +33,8 @@ PARTIAL = [
     "dtypes outside); the theorems are equalities in the absence of missing-value promotion, `Kind.promotes`/`SchPromotes` is the tolerated "
     "relation (C07_promotion_frame) and is applied by the harness when comparing computed partitions; value-dependent inference on empty "
     "partitions is tolerated by the harness only",
+    "thorough tier: the end-to-end support loop runs 1300 seeded programs x 5 layouts (was 2500) so that the tier, together with the "
+    "~3 min of the new families, stays within 15 min; the quick tier is unchanged (must-run list + 30 seeded programs x 2 layouts)",
     "operators outside the model (user functions, rolling/cumulative, binary arithmetic, astype, categorical/str/dt accessors, index "
     "merges, multi-function agg specs, split_out>1 shuffle reductions, concat of inputs with different numbers of index levels) are opaque "
     "sources in the trees and are covered only by the node-by-node end-to-end comparison of every vetted plan",
@@ -46,7 +52,8 @@ EXPLANATION = (
     "lowered unoptimized plan are compared with the model's per-partition schema up to the promotion relation; the dtype-kind table is "
     "compared with real reductions. Support: for every node of every plan stage of the vetted programs x layouts (incl. empty partitions): "
     "container kind, labels and order, series/index names and dtype kinds of `_meta` equal those of the computed node and of each computed "
-    "partition; the optimised plan declares the same schema as the query; regression cases for D80/D84/D85/D89/D96 and the open findings."
+    "partition; the optimised plan declares the same schema as the query; regression cases for D80/D84/D85/D89/D96/D99 and the open "
+    "findings D35/D43/D88/D90; a disagreeing input of a correspondence family is re-executed end to end (declared vs computed partitions)."
 )
 
 
